@@ -51,10 +51,10 @@ class Analysis:
             return cs[0]
         return Ctx(func, (kind, cls))
 
-    def cfg(self, func: FuncInfo, inline=True) -> CFG:
+    def cfg(self, func: FuncInfo, inline=True, predicates=True) -> CFG:
         """CFG of func; private helpers (methods / functions whose name starts with `_`, nested functions) called as a
         statement are spliced in, so that extracting part of a function into a helper does not move the anchors."""
-        return cfg_of(func, self._inline_resolver if inline else None)
+        return cfg_of(func, self._inline_resolver if inline else None, predicates)
 
     def _helper_target(self, call, owner_def) -> Optional[FuncInfo]:
         owner = getattr(owner_def, '_info', None)
